@@ -32,6 +32,7 @@ var ruleSets = [][]string{
 	{"-x-*", "Accept: text/plain"},
 	{"%x-trace-id", "X-A: appended"},
 	{"-Cookie", "-Referer", "User-Agent: rule-agent/1"},
+	{"-User-Agent", "X-Custom;"},
 }
 
 var idSeq atomic.Int64
@@ -107,6 +108,8 @@ func Run(ctx *core.Ctx) {
 	}
 	nConn := ctx.N(2500, 40000)
 	modes := []string{"direct", "direct", "upstream", "upstream-auth", "mitm"}
+	// slow uploads (a pause inside the body that is longer than the read-header timeout)
+	nSlow := ctx.N(40, 600)
 	type job struct {
 		cc *connCase
 	}
@@ -131,6 +134,16 @@ func Run(ctx *core.Ctx) {
 		cc := genConn(r, core.Pick(r, modes), core.Pick(r, ruleSets))
 		if i < 3 {
 			ctx.Sample(cc)
+		}
+		jobs <- job{cc}
+	}
+	for i := 0; i < nSlow; i++ {
+		r := ctx.Rng.Sub()
+		cc := genConn(r, "direct-slow", nil)
+		cc.Pipeline = false
+		cc.PauseMs = 450
+		if len(cc.Requests) > 2 {
+			cc.Requests = cc.Requests[:2]
 		}
 		jobs <- job{cc}
 	}
